@@ -51,8 +51,13 @@ impl WalPathManager {
         // existing one even if the wall clock went backwards since they were created
         // (the in-process monotonic guard does not survive a restart).
         if let Ok(dir) = fs::read_dir(&self.root) {
+            // Only regular files are WAL files: a subdirectory with an all-digit name is the root
+            // of another instance (namespace key "7", "20260922", ...) and must not steer this
+            // instance's file names (a key equal to u64::MAX made every later name collide with
+            // that directory and the instance could no longer be opened).
             let newest = dir
                 .filter_map(|e| e.ok())
+                .filter(|e| e.file_type().map(|t| t.is_file()).unwrap_or(false))
                 .filter_map(|e| e.file_name().to_str().and_then(|n| n.parse::<u64>().ok()))
                 .max();
             if let Some(newest) = newest {
